@@ -364,6 +364,16 @@ def check_packet(ctx, comp, case, cls, ver, p, expect, specs=None,
     want_id = cls.get_id(c) if expect_id is None else expect_id
     if pid != want_id or p.id != want_id:
         ctx.fail(comp, 'F1-id', case, (pid, p.id), want_id)
+    # writing does not consume or alter the packet: a second write of the
+    # same object produces the same frame
+    s2 = Sink()
+    try:
+        p.write(s2)
+        if s2.value != s.value:
+            ctx.fail(comp, 'F1-second-write-differs', case,
+                     s2.value.hex()[:200], s.value.hex()[:200])
+    except Exception as e:
+        ctx.fail(comp, 'F1-second-write-raises', case, exc=e)
     q = cls()
     q.context = c
     from minecraft.networking.packets import PacketBuffer
@@ -379,6 +389,15 @@ def check_packet(ctx, comp, case, cls, ver, p, expect, specs=None,
     if rest:
         ctx.fail(comp, 'F2-consumption', case,
                  '%d of %d bytes left' % (len(rest), len(body)), 0)
+    # what was read can be written again unchanged (decode -> encode)
+    s3 = Sink()
+    try:
+        q.write(s3)
+        if frame_split(s3.value)[1] != body:
+            ctx.fail(comp, 'F6-reencode', case,
+                     frame_split(s3.value)[1].hex()[:200], body.hex()[:200])
+    except Exception as e:
+        ctx.fail(comp, 'F6-reencode-raises', case, exc=e)
     for attr, want in expect.items():
         if not hasattr(q, attr):
             ctx.fail(comp, 'F3-field-missing', dict(case, field=attr))
